@@ -273,11 +273,20 @@ def rs2 : List Report :=
                ⟨.delete, ⟨5, some 1, .component, 0, 15, none⟩, [], []⟩] },
    { kind := .metric, vg := ⟨5, 1, some 1⟩, states := [⟨2, 1, 6, .metric, 22⟩, ⟨4, 0, 0, .metric, 24⟩] },
    { kind := .component, vg := ⟨5, 1, some 1⟩, states := [⟨1, 1, 1, .component, 20⟩] }]
-def exHist : History := [(ex1, rs1), (ex2, rs2)]
+/-- the context entity 3 written through a descriptor transaction without its (last) context state: an UPDATE part
+    that lists no state; the consumer has to drop context state 7 -/
+def ex3 : Core :=
+  ⟨⟨6, 1, some 1⟩,
+   ⟨[⟨1, none, .component, 1, 10, none⟩, ⟨2, some 1, .metric, 1, 14, none⟩, ⟨3, some 1, .context, 1, 12, none⟩,
+     ⟨4, some 1, .metric, 0, 13, none⟩],
+    [⟨1, 1, 1, .component, 20⟩, ⟨2, 1, 6, .metric, 22⟩, ⟨4, 0, 0, .metric, 24⟩], []⟩⟩
+def rs3 : List Report :=
+  [{ kind := .description, vg := ⟨6, 1, some 1⟩, parts := [⟨.update, ⟨3, some 1, .context, 1, 12, none⟩, [], []⟩] }]
+def exHist : History := [(ex1, rs1), (ex2, rs2), (ex3, rs3)]
 
 example : Describes ex0 exHist := by
-  refine ⟨by decide, by decide, trivial⟩
+  refine ⟨by decide, by decide, by decide, trivial⟩
 
-example : (applyAll ex0 exHist.reports).1 = ex2 := by decide
+example : (applyAll ex0 exHist.reports).1 = ex3 := by decide
 
 end Sdc.C01
